@@ -34,6 +34,7 @@ ASSUMPTIONS = [
     "Array op= Vector is not generated (it cannot keep x an Array)",
     "integer Arrays in a dimensionless unit that carries a scale (percent, cm/m) are not generated: the conversion factor is not an integer",
     "a component of a mixed-precision Vector is judged at the accuracy of its own dtype",
+    "each component of a Vector is judged at its own precision (1e-12 for double, 1e-6 for single precision); a quarter of the fresh operands are not representable in single precision",
 ]
 REAL_STUB = {"real": ["osyris.Array", "osyris.Vector", "osyris.Datagroup", "osyris.Dataset", "pint registry"], "stub": []}
 OPS = {"+": operator.iadd, "-": operator.isub, "*": operator.imul, "/": operator.itruediv}
@@ -105,8 +106,14 @@ def gen_rhs(rng, n):
     kind = rng.choice(["arr", "arr", "arr", "live", "live", "num", "nd", "qty", "vec", "s_arr", "s_qty"])
     unitrel = rng.choice(["same", "same", "compatible", "incompatible", "none"])
     # "one": the operand has length 1 and is broadcast over x (fresh Array / ndarray / Quantity operands only)
-    return {"kind": kind, "unitrel": unitrel, "vals": gen_vals(rng, n, "f8"), "num": float(rng.choice([2, 4, 0.5, 3, 1, 1, 100, 0.01] if kind in ("s_arr", "s_qty") else [2, 4, 0.5, 3, 1])),
-            "pick": rng.randrange(64), "one": rng.random() < 0.15}
+    rhs = {"kind": kind, "unitrel": unitrel, "vals": gen_vals(rng, n, "f8"), "num": float(rng.choice([2, 4, 0.5, 3, 1, 1, 100, 0.01] if kind in ("s_arr", "s_qty") else [2, 4, 0.5, 3, 1])),
+           "pick": rng.randrange(64), "one": rng.random() < 0.15}
+    if rng.random() < 0.2:
+        # operands that are not representable in single precision (0.1, 1/3, 2**24 + 1): a double-precision target keeps all their digits
+        rhs["vals"] = [rng.choice([0.1, 1.0 / 3.0, 0.7, 16777217.0, round(rng.uniform(0.1, 9.0), 9)]) for _ in range(n)]
+        rhs["num"] = rng.choice([0.1, 1.0 / 3.0, 0.7, 16777217.0])
+        rhs["fine"] = True
+    return rhs
 
 
 def generate(rng, tier):
@@ -725,10 +732,15 @@ def execute(case, stats):
                         # absolute part: rounding of the operands (cancellation in sums of 32-bit numbers)
                         mag = max([float(np.max(np.abs(q))) for q in xold + conv] + [0.0])
                         atol_op = tol_op * mag
-                        for o, v in zip(xl, xnew):
+                        # each component is judged at its own precision: a double-precision component next to a single-precision one
+                        # keeps double accuracy (unless the operand itself is stored in single precision)
+                        leaf_tol = [1e-6 if (y32 or G.bufs[G.arr[o]["buf"]].dtype == np.float32) else 1e-12 for o in xl]
+                        if rhs.get("fine") and x32 and any(t < 1e-6 for t in leaf_tol):
+                            stats.inc("probe.fine_operand_on_vector_of_mixed_precision")
+                        for o, v, lt in zip(xl, xnew, leaf_tol):
                             a = G.arr[o]
                             realv = np.asarray(a["real"].values)
-                            if realv.shape != v.shape or not np.allclose(realv.astype(float), v, rtol=tol_op, atol=atol_op):
+                            if realv.shape != v.shape or not np.allclose(realv.astype(float), v, rtol=lt, atol=lt * mag):
                                 V(step, op, "inplace-value", {"got": realv.tolist(), "want": v.tolist()})
                                 break
                             # the verified real values become the model's (drift control)
@@ -757,8 +769,8 @@ def execute(case, stats):
                             tol = tol_op
                             rl = [r] if h[0] == "arr" else core.vcomps(r)
                             ol = [oop] if h[0] == "arr" else core.vcomps(oop)
-                            for a_, b_ in zip(rl, ol):
-                                if not np.allclose(np.asarray(a_.values, dtype=float), np.asarray(b_.values, dtype=float), rtol=tol, atol=atol_op):
+                            for a_, b_, lt in zip(rl, ol, leaf_tol):
+                                if not np.allclose(np.asarray(a_.values, dtype=float), np.asarray(b_.values, dtype=float), rtol=lt, atol=lt * mag):
                                     V(step, op, "inplace-vs-outofplace", {"values_inplace": np.asarray(a_.values).tolist(), "values_out_of_place": np.asarray(b_.values).tolist()})
                                     break
                                 if a_.unit != b_.unit:
